@@ -651,10 +651,11 @@ theorem prepLoop_unblock (cx : Ctx) (unlockPacked : Store → Store) (base : Sto
   simp only []
   rw [filter_notin_append K' B hnotin]
 
-/-- the successful extended run is a successful core run — also when some names of the
-transaction lie below a loose reference file (they then needed no lock file) -/
-theorem runX_ok_transfer_any (env : Env) (SX SX' : StoreX) (t : Txn) (hL : NoLocks SX.base)
-    (h : runX env SX t = .ok SX') : run env SX.base t = .ok () SX'.base := by
+/-- the successful extended run, taken apart: `prepare` succeeds on the base store (without the
+stand-in locks) with the same prepared edits, and the extended commit goes through from there -/
+theorem runX_ok_parts (env : Env) (SX SX' : StoreX) (t : Txn) (hL : NoLocks SX.base)
+    (h : runX env SX t = .ok SX') :
+    ∃ p S1, prepareWith .fixed env SX.base t = .ok p S1 ∧ commitX { SX with base := S1 } p = .ok SX' := by
   obtain ⟨hl0, hpl0⟩ := hL
   unfold runX at h
   cases hp : preProcess (fun n => lookup SX.base.loose n) t.edits with
@@ -689,7 +690,6 @@ theorem runX_ok_transfer_any (env : Env) (SX SX' : StoreX) (t : Txn) (hL : NoLoc
     | ok p S1 =>
       rw [hprep] at h
       simp only [] at h
-      have hcommit := (commitX_ok { SX with base := unblock (blockedNames SX.base es) S1 } SX' p h).1
       -- the same prepare on the base store
       have hbaseprep : prepareWith .fixed env SX.base t = .ok p (unblock (blockedNames SX.base es) S1) := by
         rw [heqP, hwtx] at hprep
@@ -730,8 +730,15 @@ theorem runX_ok_transfer_any (env : Env) (SX SX' : StoreX) (t : Txn) (hL : NoLoc
           | err e S2 => rw [hpl] at hprep; simp [liftPrep] at hprep
           | panic S2 => rw [hpl] at hprep; simp [liftPrep] at hprep
           | hang => rw [hpl] at hprep; simp [liftPrep] at hprep
-      unfold run runWith
-      rw [hbaseprep]
-      exact hcommit
+      exact ⟨p, _, hbaseprep, h⟩
+
+/-- the successful extended run is a successful core run — also when some names of the
+transaction lie below a loose reference file (they then needed no lock file) -/
+theorem runX_ok_transfer_any (env : Env) (SX SX' : StoreX) (t : Txn) (hL : NoLocks SX.base)
+    (h : runX env SX t = .ok SX') : run env SX.base t = .ok () SX'.base := by
+  obtain ⟨p, S1, hprep, hc⟩ := runX_ok_parts env SX SX' t hL h
+  unfold run runWith
+  rw [hprep]
+  exact (commitX_ok { SX with base := S1 } SX' p hc).1
 
 end GixModel.C16Fs
